@@ -346,9 +346,39 @@ def check_multi(acc, name, only=None):
                 acc.sample({"subject": name, "y": y.tolist(), "candidates": None if cand is None else repr(cand), "annotators": None if annot is None else annot.tolist()}, limit=1)
 
 
+def check_generator_parameter(acc, subj):
+    """random_state given as a RandomState instance is a constructor parameter owned by the caller: queries work on a copy derived from
+    it, the caller's generator is never advanced (real generator, no substitution; duplicated points so that ties consume randomness)"""
+    X = SP.pool("dup4")
+    for lab in ((0, None, 1, None), (None, None, None, None), (0, 1, None, None)):
+        y = SP.make_y(lab, subj.task)
+        rs = np.random.RandomState(3)
+        st0 = rs.get_state()
+        key = (subj.name, "generator-parameter", lab)
+        with warnings.catch_warnings():
+            warnings.simplefilter("ignore")
+            try:
+                qs = subj.make(rs)
+                for _ in range(2):
+                    qs.query(X.copy(), y.copy(), batch_size=2, **subj.query_kwargs(X))
+            except Exception:
+                acc.case(key, trivial=True)
+                continue
+        acc.case(key)
+        acc.transitions += 2
+        acc.traces_validated += 1
+        st1 = rs.get_state()
+        if not (st0[0] == st1[0] and np.array_equal(st0[1], st1[1]) and st0[2:] == st1[2:]):
+            acc.violation(subj.name, "generator_parameter_advanced", "two queries advanced the RandomState instance that was passed as random_state "
+                          "(position %d -> %d)" % (st0[2], st1[2]), {"subject": subj.name, "X": X.tolist(), "labels": list(lab), "random_state": "RandomState(3)"},
+                          {"fit": "fit"}, {"subject": subj.name, "fit": "fit", "history": [], "generator_parameter": list(lab)}, 1)
+
+
 def run_shard(spec):
     T.install()
     acc = Acc()
+    if spec["fit"] == "fit":
+        check_generator_parameter(acc, by_name(spec["subject"]))
     if spec["fit"] == "multi":
         check_multi(acc, spec["subject"])
         acc.states = len(acc.nontrivial)
@@ -376,6 +406,9 @@ def replay(spec):
         check_multi(acc, spec["subject"])
         return [(s, k) for (s, k, _p) in acc.groups]
     subj = by_name(spec["subject"])
+    if spec.get("generator_parameter") is not None:
+        check_generator_parameter(acc, subj)
+        return [(s, k) for (s, k, _p) in acc.groups]
     hist = []
     for pname, lab, mode, bs in spec["history"]:
         lab = tuple(None if v is None else int(v) for v in lab)
